@@ -155,12 +155,17 @@ def run_api_case(build, ptype, kind, at):
     if kind is not None:
         faults[kind].arm(at)
     buf = io.StringIO()
+    kept = None       # the caller keeps the exception object (`except ... as err: saved = err`):
+                      # its traceback keeps the frames of the failed call alive, so everything
+                      # below is observed "when control returns to the caller", not after
+                      # the frames were collected
     try:
         with contextlib.redirect_stdout(buf):
             try:
                 call(ptype)
             except BaseException as e:      # noqa: the injected fault or what it caused
                 obs.raised = type(e).__name__
+                kept = e
     finally:
         U.PROGRESS_DICT[eff] = base
         U.Timer = saved_timer
@@ -205,6 +210,9 @@ def run_api_case(build, ptype, kind, at):
             return "ThreadPoolExecutor-worker"
         return "%s(daemon=%s)" % (type(t).__name__, t.daemon)
     obs.alive_names = sorted(label(t) for t in new_threads) + ["child-process"] * len(new_procs)
+    obs.objects = [dict(o) for o in obs.objects]      # frozen: what the caller sees now
+    obs.ends_with_newline = (not buf.getvalue()) or buf.getvalue().endswith("\n")
+    kept = None                                       # now the caller drops the exception
     # clean up whatever leaked
     for pl in pools:
         try:
@@ -785,6 +793,73 @@ def correspondence(res, tier, rng):
                          {"line": line, "impl": exp[-1500:], "model": got[-1500:], "meta": m})
 
 
+def progress_direct_cases():
+    """the progress classes driven the way the call sites drive them: max_value as it comes
+    out of `num_steps` arithmetic (int, 0, float, numpy scalars), title None / str, an
+    exception raised inside the block after `fail_at` updates (None: no exception)"""
+    import numpy as np
+    vals = [("int", 3), ("zero", 0), ("float", 3.0), ("np.float64", np.float64(2.0)),
+            ("np.int64", np.int64(3))]
+    out = []
+    for key in PTYPES:
+        for vname, v in vals:
+            for title in (None, "--> title:"):
+                for fail_at in (None, 0, 1):
+                    out.append((key, vname, v, title, fail_at))
+    return out
+
+
+def run_progress_direct(key, max_value, title, fail_at):
+    """Returns a dict of what is observable when the `with` block has been left and the
+    caller still holds the exception."""
+    import oqupy.util as U
+    timers = []
+
+    class LongTimer(threading.Timer):
+        def __init__(self, interval, function, *a, **k):
+            super().__init__(3600.0, function, *a, **k)
+            timers.append(self)
+    base = U.get_progress(key)
+    exits = []
+
+    class Counted(base):
+        def exit(self):
+            exits.append(1)
+            return super().exit()
+    saved = U.Timer
+    U.Timer = LongTimer
+    buf = io.StringIO()
+    kept = None
+    before = set(threading.enumerate())
+    try:
+        with contextlib.redirect_stdout(buf):
+            try:
+                with Counted(max_value, title) as bar:
+                    for k in range(2):
+                        if fail_at == k:
+                            raise RuntimeError("failure inside the progress block")
+                        bar.update(k)
+            except Exception as e:      # noqa
+                kept = e
+    finally:
+        U.Timer = saved
+    for t in timers:
+        if t._started.is_set() and t.finished.is_set():
+            t.join(60.0)
+    alive = [t for t in threading.enumerate() if t not in before and t.is_alive()]
+    text = buf.getvalue()
+    r = {"exit_calls": len(exits), "alive_threads": len(alive),
+         "raised": type(kept).__name__ if kept is not None else None,
+         "stdout_ends_with_newline": (not text) or text.endswith("\n")}
+    kept = None
+    for t in timers:
+        t.cancel()
+    for t in timers:
+        if t._started.is_set():
+            t.join(60.0)
+    return r
+
+
 def child_exit_check(runner, kind, at, ptype, timeout=8.0):
     """the interpreter must be able to exit after the call failed"""
     code = (
@@ -837,10 +912,23 @@ def search(res, rng=None):
                       "progress_type": ptype, "raised": obs.raised,
                       "alive_threads_after_call": obs.alive_names,
                       "progress_calls": [o["calls"] for o in obs.objects],
+                      "exception_object_kept_by_caller": True,
+                      "stdout_ends_with_newline": obs.ends_with_newline,
                       "pools": [{k: d[k] for k in ("func", "kind", "submitted", "shutdown", "alive")}
                                 for d in obs.pools if d.get("alive")],
                       "how": "oq.c19_runners()[%r]: arm fault %r at invocation %r, call with "
                              "progress_type=%r, then threading.enumerate()" % (name, kind, at, ptype)})
+    # the progress classes themselves, with the argument kinds the call sites pass
+    for (key, vname, v, title, fail_at) in progress_direct_cases():
+        r = run_progress_direct(key, v, title, fail_at)
+        if r["exit_calls"] != 1 or r["alive_threads"]:
+            res.fail("progress-direct:%s:max_value=%s" % (key, vname),
+                     dict(r, type="direct", progress_type=key, max_value=repr(v), title=title,
+                          fail_at=fail_at,
+                          how="with oqupy.util.get_progress(%r)(%r, %r) as bar: update(0), "
+                              "update(1), RuntimeError raised before update number fail_at; "
+                              "exception object kept; then exit() must have run exactly once "
+                              "and no new thread may be alive" % (key, v, title)))
     # schedules of the real ProgressBar (harness-side exploration only, no model involved)
     try:
         ops = parse_proto(fw.run_driver(PID, ["proto bar"])[0])
